@@ -232,7 +232,7 @@ func main() {
 			c.Dir = work
 			c.Env = env(work, "VERIF_TASK_BIN="+taskBin, "VERIF_SEED="+fmt.Sprint(seed))
 			if cfg.Race {
-				c.Env = append(c.Env, "GORACE=halt_on_error=0 log_path="+filepath.Join(work, fmt.Sprintf("race-%d", i)))
+				c.Env = append(c.Env, "GORACE=halt_on_error=0 log_path="+filepath.Join(work, fmt.Sprintf("race-%d", i)), "VERIF_RACE_LOG="+filepath.Join(work, fmt.Sprintf("race-%d", i)))
 			}
 			ob, err := c.CombinedOutput()
 			var r unitResult
